@@ -5,6 +5,6 @@ CONSTANTS
   Batch = 32
   RejoinMs = 30000
   MaxL = 4
-  Check = {"C01","C04","C06","C07","C08","C09","C14","C20"}
+  Check = {"C20"}
 POSTCONDITION TraceAccepted
 CHECK_DEADLOCK FALSE
